@@ -313,6 +313,7 @@ func (p *Proxy) handleConnectRequest(ctx *Context, req *http.Request, session *S
 
 	if p.mitm != nil {
 		log.Debugf("martian: attempting MITM for connection: %s / %s", req.Host, req.URL.String())
+		session.setTunnelHost(req.URL.Host)
 
 		res := proxyutil.NewResponse(200, nil, req)
 
@@ -505,6 +506,11 @@ func (p *Proxy) handle(ctx *Context, conn net.Conn, brw *bufio.ReadWriter) error
 	req.RemoteAddr = conn.RemoteAddr().String()
 	if req.URL.Host == "" {
 		req.URL.Host = req.Host
+	}
+	if req.URL.Host == "" {
+		// Neither the target nor a Host header names a host (HTTP/1.0 inside a
+		// tunnel): the request is meant for the host the tunnel was opened to.
+		req.URL.Host = session.getTunnelHost()
 	}
 
 	if req.Method == "CONNECT" {
